@@ -159,7 +159,7 @@ Theorem C11_gen_Dequeue_scan_decisions :
   let d := g_pq_dequeue_body (q_expired exp now (snd kv)) (q_removed (snd kv)) (Z.of_N (p_typ (q_prop (snd kv)))) (Z.of_N typ) in
   (negb (q_expired exp now (snd kv)) && negb (q_removed (snd kv)) && N.eqb (p_typ (q_prop (snd kv))) typ
    = match d with ([2], Fall) => true | _ => false end)
-  /\ (negb (q_expired exp now (snd kv)) = match d with ([1], Cont) => false | _ => true end).
+  /\ (negb (q_expired exp now (snd kv)) = match d with ([1], Fall) => false | _ => true end).
 Proof. exact gen_pq_dequeue_body. Qed.
 Print Assumptions C11_gen_Dequeue_scan_decisions.
 
@@ -188,7 +188,7 @@ Theorem C11_gen_prebuild_hooks_steps :
   forall enq_err : bool,
   g_hook_remove_metadata = ([1], Fall) /\ g_hook_remove_metadata_body = ([1; 2], Fall) /\
   g_hook_remove_staging = ([1; 2], Fall) /\ g_hook_remove_staging_body = ([1], Fall) /\
-  g_hook_proposalq_body enq_err = (if enq_err then ([1], Cont) else ([1; 2], Fall)).
+  g_hook_proposalq_body enq_err = (if enq_err then ([1], Fall) else ([1; 2], Fall)).
 Proof. exact gen_hook_prebuild. Qed.
 Print Assumptions C11_gen_prebuild_hooks_steps.
 
